@@ -220,6 +220,9 @@ def b_len(eng, node, st):
         return v.sym_len(eng, st)
     if isinstance(v, (VSet, VDict)):
         return card(eng, st, v)
+    r = eng.model_hook(v, "len", st)
+    if r is not NotImplemented:
+        return r
     raise Unsupported("len of %r" % (v,))
 
 
@@ -422,6 +425,10 @@ def b_set(eng, node, st):
     v = a[0]
     if isinstance(v, VSet):
         return VSet(v.key, v.dom)
+    if isinstance(v, VRange) and isinstance(v.step, int) and v.step == 1:
+        k = z3.Int(fresh_name("k"))
+        lo, hi = to_z3(v.lo), to_z3(v.hi)
+        return VSet(INT, z3.Lambda([k], z3.And(lo <= k, k < hi)))
     if isinstance(v, VList):
         eng.need_value(st, v)
         k = z3.Const(fresh_name("k"), v.elem.z3sort())
